@@ -18,6 +18,7 @@
 //
 
 #include "fast_sdmx.h"
+#include "cider_verif.h"
 #include "pyscf_gto.h"
 #include "sph_harm.h"
 #include <math.h>
@@ -468,6 +469,7 @@ void SDMXcontract_ao_to_bas(int ngrids, double *vbas, double *ylm_lg,
         for (thread = 0; thread < nthread; thread++) {
             ip = blksize * thread;
             bgrids = MIN(ip + blksize, ngrids) - ip;
+            CIDER_VERIF_EVENT("sdmx_ao_to_bas_0", nthread, thread, ip, ip + bgrids, ngrids);
             for (sh = sh0; sh < sh1; sh++) {
                 ia = bas[sh * BAS_SLOTS + ATOM_OF];
                 l = bas[sh * BAS_SLOTS + ANG_OF];
@@ -512,6 +514,7 @@ void SDMXcontract_ao_to_bas_bwd(int ngrids, double *vbas, double *ylm_lg,
         for (thread = 0; thread < nthread; thread++) {
             ip = blksize * thread;
             bgrids = MIN(ip + blksize, ngrids) - ip;
+            CIDER_VERIF_EVENT("sdmx_ao_to_bas_1", nthread, thread, ip, ip + bgrids, ngrids);
             for (sh = sh0; sh < sh1; sh++) {
                 ia = bas[sh * BAS_SLOTS + ATOM_OF];
                 l = bas[sh * BAS_SLOTS + ANG_OF];
@@ -556,6 +559,7 @@ void SDMXcontract_ao_to_bas_grid(int ngrids, double *vbas, double *ylm_lg,
         for (thread = 0; thread < nthread; thread++) {
             ip = blksize * thread;
             bgrids = MIN(ip + blksize, ngrids) - ip;
+            CIDER_VERIF_EVENT("sdmx_ao_to_bas_2", nthread, thread, ip, ip + bgrids, ngrids);
             for (sh = sh0; sh < sh1; sh++) {
                 ia = bas[sh * BAS_SLOTS + ATOM_OF];
                 l = bas[sh * BAS_SLOTS + ANG_OF];
@@ -611,6 +615,7 @@ void SDMXcontract_ao_to_bas_grid_bwd(int ngrids, double *vbas, double *ylm_lg,
         for (thread = 0; thread < nthread; thread++) {
             ip = blksize * thread;
             bgrids = MIN(ip + blksize, ngrids) - ip;
+            CIDER_VERIF_EVENT("sdmx_ao_to_bas_3", nthread, thread, ip, ip + bgrids, ngrids);
             for (sh = sh0; sh < sh1; sh++) {
                 ia = bas[sh * BAS_SLOTS + ATOM_OF];
                 l = bas[sh * BAS_SLOTS + ANG_OF];
@@ -662,6 +667,7 @@ void SDMXcontract_ao_to_bas_l1(int ngrids, double *vbas, double *ylm_vlg,
         for (thread = 0; thread < nthread; thread++) {
             ip = blksize * thread;
             bgrids = MIN(ip + blksize, ngrids) - ip;
+            CIDER_VERIF_EVENT("sdmx_ao_to_bas_4", nthread, thread, ip, ip + bgrids, ngrids);
             for (sh = sh0; sh < sh1; sh++) {
                 ia = bas[sh * BAS_SLOTS + ATOM_OF];
                 l = bas[sh * BAS_SLOTS + ANG_OF];
@@ -742,6 +748,7 @@ void SDMXcontract_ao_to_bas_l1_bwd(int ngrids, double *vbas, double *ylm_vlg,
         for (thread = 0; thread < nthread; thread++) {
             ip = blksize * thread;
             bgrids = MIN(ip + blksize, ngrids) - ip;
+            CIDER_VERIF_EVENT("sdmx_ao_to_bas_5", nthread, thread, ip, ip + bgrids, ngrids);
             for (sh = sh0; sh < sh1; sh++) {
                 ia = bas[sh * BAS_SLOTS + ATOM_OF];
                 l = bas[sh * BAS_SLOTS + ANG_OF];
